@@ -28,9 +28,11 @@ def render_child(name):
         res = ex.fresh("str", "rendered")
         ex.log.append((name, {"child": child, "tight": s.fields["_current_list_tight"], "prefix": s.fields["_prefix"],
                               "second": s.fields["_second_prefix"], "suppress": s.fields["_suppress_item_break"]}, res))
+        before = s.fields["_prefix"]
         for f in R_HAVOC:
             s.fields[f] = ex.fresh(SELF_FIELDS[f], "self." + f)
-        s.fields["_prefix"] = s.fields["_second_prefix"]      # R.prefix_consumed
+        # R.prefix_consumed: whatever emitted text consumed the first-line prefix; nothing emitted, nothing consumed
+        s.fields["_prefix"] = ex.ite(ex.b(ex.truth(ex.eq(res, ""))), before, s.fields["_second_prefix"])
         return res
     return Callee("custom", handler=handler)
 
@@ -146,11 +148,12 @@ contract(Contract(
 # --------------------------------------------------------------------------- render_list_item
 contract(Contract(
     target=M + ":MarkdownNormalizer.render_list_item",
-    props=["C10", "C12"],
+    props=["C10", "C12", "C01"],
     params={"element": "ref:Element"},
     self_cls="MarkdownNormalizer",
     heap=HEAP,
     setup=self_setup,
+    types={"rendered": "str"},
     calls={"self.render_children": render_child("RENDER_CHILDREN")},
     ensures={
         # exactly one separator line (the continuation prefix without its trailing blanks - leading indentation kept - + newline) before the item iff
@@ -158,6 +161,7 @@ contract(Contract(
         "separator": Clause(lambda ex: _item_post(ex)),
     },
     canaries=[
+        ("        if not rendered:\n", "        if False:\n"),
         ("if not self._current_list_tight:", "if self._current_list_tight:"),
         ('result += self._second_prefix.rstrip() + "\\n"', 'result += self._second_prefix + "\\n"'),
         ('result += self._second_prefix.rstrip() + "\\n"', 'result += self._second_prefix.strip() + "\\n"'),
@@ -178,9 +182,14 @@ def _item_post(ex):
     res = env["result"]
     emits = z3.And(z3.Not(tight), z3.Not(sup))
     sup_at_call = ex.b(ex.truth(calls[0][1]["suppress"]))
+    # an item without content still holds its place (C01): the bare marker, i.e. the first-line prefix without trailing blanks
+    marker = ex.concat([ex.wrap(ex.mk_strip("rstrip", ex.z(old["_prefix"])), "str"), "\n"])
+    empty = ex.b(ex.truth(ex.eq(rc, "")))
+    body = ex.ite(empty, marker, rc)
     return z3.And(
-        z3.Implies(emits, ex.b(ex.truth(ex.eq(res, ex.concat([sep, rc]))))),
-        z3.Implies(z3.Not(emits), ex.b(ex.truth(ex.eq(res, rc)))),
+        z3.Implies(emits, ex.b(ex.truth(ex.eq(res, ex.concat([sep, body]))))),
+        z3.Implies(z3.Not(emits), ex.b(ex.truth(ex.eq(res, body)))),
+        ex.b(ex.truth(ex.eq(env["self"].fields["_prefix"], env["self"].fields["_second_prefix"]))),
         # the suppression is consumed by the first item of a loose list and only there
         z3.Implies(z3.And(z3.Not(tight), sup), z3.Not(sup_at_call)),
         z3.Implies(tight, sup_at_call == sup),
